@@ -22,6 +22,15 @@ struct CsvT {
         if (o.getb("keep_empty_lines")) opt.ignore_empty_lines(false);
         if (o.getb("lossless")) opt.lossless_number(true);
         if (o.has("max_depth")) opt.max_nesting_depth((std::size_t)o.getu("max_depth"));
+        if (o.has("column_types")) opt.column_types(o.gets("column_types"));
+        if (o.has("column_names")) opt.column_names(o.gets("column_names"));
+        if (o.has("column_defaults")) opt.column_defaults(o.gets("column_defaults"));
+        if (o.has("header_lines")) opt.header_lines((std::size_t)o.getu("header_lines"));
+        if (o.has("delim")) opt.field_delimiter((char)o.getu("delim"));
+        if (o.has("max_lines")) opt.max_lines((std::size_t)o.getu("max_lines"));
+        if (o.getb("ignore_empty_values")) opt.ignore_empty_values(true);
+        if (o.has("quote_char")) opt.quote_char((char)o.getu("quote_char"));
+        if (o.getb("trim_in_quotes")) { opt.trim_leading_inside_quotes(true); opt.trim_trailing_inside_quotes(true); }
         return opt;
     }
     template <class C> static void cursor_check_done(C&, std::error_code&) {}
